@@ -368,6 +368,8 @@ CHECKS["C20"] = {
     "quick": _c20([(2, 0, 0, 5), (2, 0, 0, 9), (2, 0, 0, 6), (2, 0, 0, 4), (2, 0, 0, 1), (2, 0, 2, 5), (3, 3, 5, 17), (3, 6, 0, 17)])
              # request, reorg, request, a second reorg back to the same epoch, request (later epoch, one index each; one duty type per case)
              + [{"harness": "VerifC20Cache", "params": {"k": 5, "ops": 30, "eps": 21, "lens": 273, "typ": [0, 1, 2], "mix": 0, "two": 0, "bnfail": 0}, "prune": 1000, "timeout_ms": 300000},
+                # three single-index requests (e.g. a higher index first, then a lower one, then the first again)
+                {"harness": "VerifC20Cache", "params": {"k": 3, "ops": 0, "eps": 0, "lens": 21, "typ": 1, "mix": 0, "two": 0, "bnfail": 0}, "prune": 1000, "timeout_ms": 300000},
                 # the epoch is cached for one validator; a request for two validators then needs the beacon node, which fails
                 {"harness": "VerifC20Cache", "params": {"k": 2, "ops": 0, "eps": 0, "lens": 9, "typ": [0, 1, 2], "mix": 0, "two": 0, "bnfail": 2}, "prune": 1000, "timeout_ms": 300000}],
     "thorough": _c20([(2, 0, e, l) for e in (0, 1, 2, 3) for l in (0, 1, 2, 4, 5, 6, 8, 9, 10, 12, 13, 14)]
